@@ -198,6 +198,11 @@ pub fn compare_traces(pred: &Pred, act: &Actual, top_ok_and_events_agree: Option
                     owners.push("C02");
                 }
             }
+            // where an entry point of a sub-message's target is due, a reply of the dispatcher runs instead: it
+            // reports on a sub-message that never ran ("after that sub-message finishes", C03)
+            if ak == Some(Kind::Reply) && matches!(pk, Some(Kind::Execute) | Some(Kind::Instantiate) | Some(Kind::Migrate)) && !owners.contains(&"C03") {
+                owners.push("C03");
+            }
             owners.sort();
             owners.dedup();
             return Some(Disc { owners, sig: "trace:call-sequence".into(), msg: format!("trace position {}: {}; expected {}, real run has {}", i, what, p.map(entry_brief).unwrap_or_else(|| "end of trace".into()), a.map(entry_brief).unwrap_or_else(|| "end of trace".into())), model_free: false });
